@@ -854,18 +854,24 @@ class _RandomShim(types.ModuleType):
 
 random_shim = _RandomShim()
 
-_installed = False
+_installed: set = set()
 
 
 def install(extra=None):
     """Replace concurrency module references inside the secsgem modules (idempotent)."""
-    global _installed
     import importlib
     import pkgutil
 
     import secsgem
 
-    if _installed:
+    shims = {"threading": threading_shim, "queue": queue_shim, "time": time_shim, "random": random_shim}
+    real = {"threading": _rt, "queue": _rq, "time": _rtime, "random": _rrandom}
+    if extra:
+        for k, v in extra.items():
+            shims[k] = v
+            real[k] = sys.modules.get(k) or importlib.import_module(k)
+    todo = {k: v for k, v in shims.items() if k not in _installed}
+    if not todo:
         return
     for m in pkgutil.walk_packages(secsgem.__path__, "secsgem."):
         if ".functions.s" in m.name or ".data_items." in m.name:
@@ -874,17 +880,10 @@ def install(extra=None):
             importlib.import_module(m.name)
         except Exception:  # noqa: BLE001
             pass
-    shims = {"threading": threading_shim, "queue": queue_shim, "time": time_shim, "random": random_shim}
-    if extra:
-        shims.update(extra)
-    real = {"threading": _rt, "queue": _rq, "time": _rtime, "random": _rrandom}
-    if extra:
-        for k in extra:
-            real[k] = sys.modules.get(k)
     for name, mod in list(sys.modules.items()):
         if not name.startswith("secsgem") or mod is None:
             continue
-        for attr, shim in shims.items():
+        for attr, shim in todo.items():
             if getattr(mod, attr, None) is real.get(attr) and real.get(attr) is not None:
                 setattr(mod, attr, shim)
-    _installed = True
+    _installed.update(todo)
